@@ -4,7 +4,7 @@ import os
 import re
 from .. import core
 
-DEV = dict(D_InPlaceAppend=False, D_LazyFallbackInit=False, D_EarlyPut=False, D_PutBeforeHook=False)
+DEV = dict(D_InPlaceAppend=False, D_LazyFallbackInit=False, D_EarlyPut=False, D_PutBeforeHook=False, D_RedispatchPuts=False)
 
 
 def scfg(reqs, kinds, shape, emit=True, invs=("NoInterference", "NoSharedCtx", "NoModelRace"), **dev):
@@ -100,6 +100,9 @@ def run(chk):
                 schedules(chk, ["r1", "r2"], kinds, sh, fo)
         for kinds in panics:      # a panicking request with an OnPanic hook next to another request
             schedules(chk, ["r1", "r2"], kinds, (1, 1, 0, 0), fo)
+        # a handler that re-dispatches its request with Router.HandleContext and goes on using its context (F23)
+        for kinds, sh in [(("rd", "a"), (1, 1, 1, 1)), (("rd", "b"), (3, 4, 0, 0))] + ([(("rd", "rd"), (1, 1, 0, 0)), (("rd", "nf"), (2, 2, 1, 2))] if thorough else []):
+            schedules(chk, ["r1", "r2"], kinds, sh, fo)
         triples = [("a", "b", "a"), ("a", "b", "nf")] if thorough else [("a", "b", "a")]
         for kinds in triples:
             schedules(chk, ["r1", "r2", "r3"], kinds, (3, 4, 0, 0), fo, sample_every=1 if thorough else 4)
@@ -110,8 +113,9 @@ def run(chk):
     for sw, shape, kinds, inv in [("D_InPlaceAppend", (3, 4, 0, 0), ("a", "b"), "NoInterference"),
                                   ("D_InPlaceAppend", (0, 0, 1, 2), ("a", "a"), "NoModelRace"),
                                   ("D_LazyFallbackInit", (0, 0, 0, 0), ("nf", "nf"), "NoModelRace"),
+                                  ("D_RedispatchPuts", (1, 1, 0, 0), ("rd", "a"), "NoSharedCtx"),
                                   ("D_EarlyPut", (1, 1, 0, 0), ("a", "b"), "NoSharedCtx"),
-                                  ("D_PutBeforeHook", (1, 1, 0, 0), ("p", "a"), "NoSharedCtx")][: 5 if thorough else 2]:
+                                  ("D_PutBeforeHook", (1, 1, 0, 0), ("p", "a"), "NoSharedCtx")][: 6 if thorough else 3]:
         r = core.run_tlc("MC_Serve", cfg_text=scfg(["r1", "r2"], kinds, shape, emit=False, invs=(inv,), **{sw: True}), timeout=300)
         chk.expect_fails(r, "MC_Serve[%s %s]" % (sw, shape), inv)
     stress(chk, 40 if thorough else 8)
